@@ -149,10 +149,65 @@ static void case_parse(const unsigned char *bytes, int len) {
     vf_buf_free(out);
 }
 
+/* buffer sizes that do not fit into 32 bits: "a buffer of at least 17 bytes" has no upper end, and a size that is truncated to
+ * int or unsigned somewhere inside becomes k = sz mod 2^32, possibly below 17.  The buffer really is that large: an anonymous
+ * no-reserve mapping of 2^33 + 4096 bytes, of which only the first page is ever touched. */
+#include <sys/mman.h>
+static void case_tostr_huge(uint64_t h, size_t sz, unsigned char *big) {
+    vf_case("tostr-huge %016" PRIx64 " %zu", h, sz);
+    uint64_t key = vf_mix(h) ^ vf_mix((uint64_t)sz);
+    memset(big, 0xCC, 64);
+    H3Error e = 99;
+    if (VF_GUARD()) {
+        e = h3ToString(h, (char *)big, sz);
+    } else {
+        vf_assert_report("h3ToString", key);
+        VF_UNGUARD();
+        return;
+    }
+    VF_UNGUARD();
+    vf_add("tostr.calls", 1);
+    vf_add("tostr.sizes_beyond_32_bits", 1);
+    char want[17];
+    int n = fmt_hex(h, want);
+    if (e != E_SUCCESS)
+        vf_violation("wrong-code", "h3ToString", key, "", "sz=%zu (= 2^32 * %zu + %zu) returned %u, expected success", sz, sz >> 32, sz & 0xffffffffu, e);
+    else if (memcmp(big, want, (size_t)n + 1))
+        vf_violation("wrong-text", "h3ToString", key, "", "h=%016" PRIx64 " sz=%zu wrote \"%.20s\", expected \"%s\"", h, sz, (char *)big, want);
+    else
+        for (int i = 17; i < 64; i++)
+            if (big[i] != 0xCC) {
+                vf_violation("touched", "h3ToString", key, "", "sz=%zu: byte %d (beyond the 17 the text can need) was modified", sz, i);
+                break;
+            }
+    vf_distinct(key);
+}
+static void huge_sizes(vf_rng *r) {
+    size_t len = ((size_t)1 << 33) + 4096;
+    unsigned char *big = mmap(NULL, len, PROT_READ | PROT_WRITE, MAP_PRIVATE | MAP_ANONYMOUS | MAP_NORESERVE, -1, 0);
+    if (big == MAP_FAILED) {
+        vf_add("tostr.huge_mapping_refused", 1);
+        return;
+    }
+    for (int m = 1; m <= 2; m++)
+        for (int k = 0; k <= 17; k++) {
+            size_t sz = ((size_t)m << 32) + (size_t)k;
+            case_tostr_huge(0, sz, big);
+            case_tostr_huge(~(uint64_t)0, sz, big);
+            case_tostr_huge((uint64_t)0x123456789abcdefULL >> (4 * (k % 15)), sz, big);
+            case_tostr_huge(vf_u64(r) >> (int)vf_below(r, 60), sz, big);
+        }
+    case_tostr_huge(vf_rand_cell(r, 9), ((size_t)1 << 31) + 5, big);
+    case_tostr_huge(vf_rand_cell(r, 9), ((size_t)1 << 31), big);
+    case_tostr_huge(vf_rand_cell(r, 9), ((size_t)1 << 32) - 1, big);
+    munmap(big, len);
+}
+
 static void run(void) {
     vf_rng r;
     vf_rng_stream(&r, 20);
     int64_t idx = 0;
+    if (VF.shard == 0) huge_sizes(&r);
     /* every single bit, zero, all ones x every buffer size 0..32 */
     for (int b = -2; b < 64; b++) {
         uint64_t h = b == -2 ? 0 : b == -1 ? ~(uint64_t)0 : (uint64_t)1 << b;
@@ -227,7 +282,15 @@ static void run(void) {
 static void replay(const char *spec) {
     uint64_t h;
     int sz;
-    if (sscanf(spec, "tostr %" SCNx64 " %d", &h, &sz) == 2) {
+    size_t hsz;
+    if (sscanf(spec, "tostr-huge %" SCNx64 " %zu", &h, &hsz) == 2) {
+        size_t len = ((size_t)1 << 33) + 4096;
+        unsigned char *big = mmap(NULL, len, PROT_READ | PROT_WRITE, MAP_PRIVATE | MAP_ANONYMOUS | MAP_NORESERVE, -1, 0);
+        if (big == MAP_FAILED) vf_fatal("cannot map the large buffer");
+        case_tostr_huge(h, hsz, big);
+        munmap(big, len);
+        return;
+    } else if (sscanf(spec, "tostr %" SCNx64 " %d", &h, &sz) == 2) {
         case_tostr(h, sz);
         return;
     }
